@@ -63,6 +63,11 @@ TRUSTED = [
 ]
 
 
+# pool graphs that also go through an object history across saves (every kind that owns mutable state)
+HIST_POOL = {"tensors", "modules", "optimizers", "nesting", "array-dtypes", "numeric-mixes", "attrs-classes-0", "rng-in-containers",
+             "torch-containers"}
+
+
 def _history(r, case, depth=2, width=3, p=0.6):
     """overwrite history of a mode-'o' case: with probability p the target holds an EARLIER save of a different graph
     (70% an earlier state of the same graph, 30% an unrelated graph over the same name pool) instead of junk"""
@@ -84,6 +89,9 @@ def gen_cases(ctx: Ctx):
         cases.append(_history(r, {"id": "p%03d" % n, "prop": "C01", "label": label, "spec": spec, "cfg": cfg, "dispatch": True,
                       "fixpoint": True, "other_store": dict(G.gen_cfg(r), store="dir" if cfg["store"] == "zip" else "zip", mode="w"),
                       "known_limit": False}))
+        if label in HIST_POOL:
+            # always-run object histories: the live graph is changed in place and saved again, twice
+            cases[-1]["hist"] = G.gen_hist(r, rounds=2)
         n += 1
     # always-run overwrite histories: each graph is saved over an earlier, larger state of itself (every container and
     # object extended, every array re-filled), once per store; the other store goes through the same history
@@ -119,6 +127,9 @@ def gen_cases(ctx: Ctx):
                       "other_store": dict(G.gen_cfg(r), store="dir" if cfg["store"] == "zip" else "zip", mode="w")
                       if (j % 3 == 1 or not ctx.quick) else None,
                       "known_limit": False}, depth, width))
+        if j % 3 == 2:
+            # a third of the random graphs: object history across saves (1-2 rounds of in-place changes + another save)
+            cases[-1]["hist"] = G.gen_hist(r)
     return cases
 
 
@@ -136,7 +147,7 @@ def _classes_in(spec, acc):
     return acc
 
 
-def report(ctx: Ctx, case, res, key, msg, found_input=True, shrink=True):
+def report(ctx: Ctx, case, res, key, msg, found_input=True, shrink=True, rec=None):
     """one violation: shrink a random graph first, then hand it to the framework"""
     rp_case = case
     if shrink and found_input and case.get("label") == "graph" and key not in ctx._seen_keys:
@@ -144,8 +155,11 @@ def report(ctx: Ctx, case, res, key, msg, found_input=True, shrink=True):
             rp_case = G.shrink(case, key)
         except Exception:  # noqa
             rp_case = case
-    ctx.violation(key, msg, {"kind": "case", "case": rp_case, "original_case_id": case["id"],
-                             "notes": res.get("notes"), "diffs": res.get("diffs")[:8]}, found_input=found_input)
+    rp = {"kind": "case", "case": rp_case, "original_case_id": case["id"], "notes": res.get("notes"),
+          "diffs": (rec["diffs"] if rec else res.get("diffs"))[:8]}
+    if rec:
+        rp["history_round"], rp["history_ops_of_original_case"] = rec["round"], rec["ops"][:40]
+    ctx.violation(key, msg, rp, found_input=found_input)
 
 
 def run(ctx: Ctx):
@@ -166,7 +180,11 @@ def run(ctx: Ctx):
         "- 70% an earlier state of the same graph (containers/objects with more children, arrays with other contents or shapes, "
         "non-zero where the later array is all fill value, members of another storage kind), 30% an unrelated graph - the rest over "
         "junk; two always-run histories per store); second save/load of the loaded object and the other store for every pool case, a third of the "
-        "random quick cases and every thorough case; a case is distinct by (spec, configuration) and non-trivial when the graph has "
+        "random quick cases and every thorough case; OBJECT HISTORIES ACROSS SAVES for a third of the random graphs and 9 pool graphs: the same live "
+        "graph is changed in place after its first save (tensor / module / optimizer / generator / ndarray contents through every write path incl. "
+        ".data and shared NumPy views, re-assignment with any value kind, append / insert / pop, key / attribute creation and deletion, set add / "
+        "discard; each value touched with probability 0.25-0.6, stateful ones twice as often) and saved again 1-2 times (same target mode 'o' or a new "
+        "target, any store / compression), every file must load to the state at ITS save; a case is distinct by (spec, configuration, history) and non-trivial when the graph has "
         ">= 4 values")
     ctx.assumptions += ASSUMPTIONS
     ctx.cov["trusted_base"] += TRUSTED
@@ -186,7 +204,7 @@ def _run(ctx: Ctx):
     results = G.run_cases(cases)
     ctx.log("implementation runs done")
     exprs, idx, disp_rows = [], [], []
-    n_fix = n_other = 0
+    n_fix = n_other = n_hist = 0
     known_seen = {}
     for case, res in zip(cases, results):
         if res.get("harness_exc"):
@@ -243,16 +261,37 @@ def _run(ctx: Ctx):
             # save() raised before a store existed: only the domain question is asked of the model
             exprs.append("[wf_obj %s]" % res["v"])
             idx.append((case, res, "wf"))
+        # ---- object history across saves: one model evaluation per later save of the same live graph
+        if case.get("hist"):
+            ctx.dist("object-history/cases")
+        for rec in res.get("hist", []):
+            n_hist += 1
+            ctx.dist("object-history/save-%d/%s/%s" % (rec["round"] + 1, rec["target"] + "-target", rec.get("cfg", {}).get("store", "?")))
+            for op in rec["ops"]:
+                ctx.dist("object-history/op/" + op.split(": ", 1)[1].split(" (")[0].split(" 0x")[0][:40].rstrip("0123456789.-' "))
+            if not rec["v"]:
+                for key, msg in rec["diffs"]:
+                    report(ctx, case, res, key, "round trip differs [%s]: %s" % (case["id"], msg), rec=rec)
+            elif rec["obs"] and rec["ld"]:
+                exprs.append("chk01 %s %s %s" % (rec["v"], rec["obs"], rec["ld"]))
+                idx.append((case, res, "hist", rec))
+            else:
+                exprs.append("[wf_obj %s]" % rec["v"])
+                idx.append((case, res, "hist", rec))
         disp_rows.extend(res["disp"])
+    ctx.dist("runs/object-history-saves", n_hist)
     ctx.dist("runs/fixpoint", n_fix)
     ctx.dist("runs/other-store", n_other)
     ctx.log("oracle done; %d model evaluations" % len(exprs))
     vals = ctx.coq_eval("rt", PRE, exprs, shard=12, timeout=900)
     nd = 0
     n_outside, outside_samples, outside_pool = 0, [], []
-    for (case, res, mode), v in zip(idx, vals):
+    for ent, v in zip(idx, vals):
+        case, res, mode = ent[:3]
+        rec = ent[3] if len(ent) > 3 else None
+        diffs = rec["diffs"] if rec else res["diffs"]
         ctx.cov["traces_validated_against_impl"] += 1
-        oracle_failed = bool(res["diffs"])
+        oracle_failed = bool(diffs)
         wf = v[0]
         if case["known_limit"]:
             # outside the theorem's domain, or a codec limit the model does not describe: only recorded
@@ -272,12 +311,12 @@ def _run(ctx: Ctx):
             # stream and the shrinker can wander there (e.g. an all-numeric sequence mixing a float with an
             # int beyond 2**53, or an int beyond int64); neither the oracle nor the theorems speak about it
             n_outside += 1
-            ctx.dist("outside-domain/" + ("oracle-differs" if oracle_failed else "round-trips"))
+            ctx.dist(("object-history/" if rec else "") + "outside-domain/" + ("oracle-differs" if oracle_failed else "round-trips"))
             if len(outside_samples) < 5:
-                outside_samples.append({"case": case["id"], "oracle": [d[1][:160] for d in res["diffs"][:2]]})
+                outside_samples.append({"case": case["id"], "oracle": [d[1][:160] for d in diffs[:2]]})
             continue
-        for key, msg in res["diffs"]:
-            report(ctx, case, res, key, "round trip differs [%s]: %s" % (case["id"], msg))
+        for key, msg in diffs:
+            report(ctx, case, res, key, "round trip differs [%s]: %s" % (case["id"], msg), rec=rec)
         for nm, ok in zip(names[1:], v[1:]):
             if not ok:
                 nd += 1
@@ -291,8 +330,9 @@ def _run(ctx: Ctx):
                         "decode": "load() of the written store differs from the model's load_file on the same store",
                         "model-roundtrip": "the model's own round trip is not norm v on a wf graph (theorem instance false)",
                         "roundtrip": "the loaded object differs from norm v predicted by the model"}[nm]
-                report(ctx, case, res, nm + "-correspondence", "%s [case %s, %s]" % (what, case["id"], case["label"]),
-                       found_input=oracle_failed, shrink=False)
+                report(ctx, case, res, ("history-" if rec else "") + nm + "-correspondence", "%s [case %s, %s%s]" % (
+                    what, case["id"], case["label"], ", save #%d of the same live graph after in-place changes" % (rec["round"] + 1) if rec else ""),
+                       found_input=oracle_failed, shrink=False, rec=rec)
     # ---- dispatch chain and type tables against the real objects
     seen, dexprs, drows = set(), [], []
     for row in disp_rows:
@@ -365,9 +405,22 @@ def replay(ctx: Ctx, path):
         print("earlier graph saved at the same target first (then overwritten with mode 'o'):", json.dumps(case["prev_spec"]))
     for k, m in res["diffs"]:
         print("oracle: [%s] %s" % (k, m))
-    if not res["diffs"]:
+    bad = bool(res["diffs"])
+    for rec in res.get("hist", []):
+        print("object history, save #%d of the same live graph (%s target, %s) after the in-place changes:" % (
+            rec["round"] + 1, rec["target"], rec.get("cfg")))
+        for op in rec["ops"]:
+            print("   ", op)
+        for k, m in rec["diffs"]:
+            print("oracle: [%s] %s" % (k, m))
+        bad = bad or bool(rec["diffs"])
+    if not bad:
         print("oracle: property holds on this case")
     if res.get("v") and res.get("obs") and res.get("ld"):
         v = ctx.coq_eval("replay", PRE, ["chk01 %s %s %s" % (res["v"], res["obs"], res["ld"])])[0]
         print("model: wf=%s encode=%s decode=%s model-roundtrip=%s roundtrip=%s" % tuple(v))
-    return 1 if res["diffs"] else 0
+    for rec in res.get("hist", []):
+        if rec.get("v") and rec.get("obs") and rec.get("ld"):
+            v = ctx.coq_eval("replay_h%d" % rec["round"], PRE, ["chk01 %s %s %s" % (rec["v"], rec["obs"], rec["ld"])])[0]
+            print("model, save #%d: wf=%s encode=%s decode=%s model-roundtrip=%s roundtrip=%s" % ((rec["round"] + 1,) + tuple(v)))
+    return 1 if bad else 0
